@@ -419,6 +419,9 @@ def wicks(expr, rules: Rules = None, simplify_kronecker_deltas: bool = False):
             result = (Mul(*c_part) * result).expand()
             if simplify_kronecker_deltas:
                 result = evaluate_deltas(result)
+    elif isinstance(expr, Pow) and isinstance(expr.base, FermionicOperator):
+        # a fermionic operator is nilpotent: a_p * a_p = 0
+        return S.Zero
     else:  # neither add, Mul, NO or Operator -> maybe a number or a tensor
         return expr
 
